@@ -40,6 +40,7 @@ ENTRIES = [
     M("C11-x-branch-on-callback-state", "C11", "C11.3", (OFP, "        callback_state = callback.reset(ResetContext(locals()), key=callback_key)\n\n        return AbstractOffPolicyState(", "        if jax.tree.leaves(step_state.callback_state):\n            step_state = eqx.tree_at(lambda s: s.env_state, step_state, step_state.env_state)\n            init_key = starts_key\n        callback_state = callback.reset(ResetContext(locals()), key=callback_key)\n        if jax.tree.leaves(callback_state):\n            policy = jax.tree.map(lambda x: x, policy)\n\n        return AbstractOffPolicyState(")),
     M("C11-x-learn-key-depends-on-callback", "C11", "C11.3", ("lerax/algorithm/base_algorithm.py", "        callback = self.consolidate_callbacks(callback)\n", "        callback = self.consolidate_callbacks(callback)\n        if isinstance(callback, CallbackList):\n            reset_key = learn_key\n")),
     V("C11-x-v-branch-on-callback-same-result", "C11", ("lerax/algorithm/base_algorithm.py", "        callback = self.consolidate_callbacks(callback)\n", "        callback = self.consolidate_callbacks(callback)\n        if isinstance(callback, CallbackList):\n            n_observers = len(callback.callbacks)\n        else:\n            n_observers = 1\n")),
+    M("O-ppo-overrides-post-collect", ["C03", "C04"], "C03", (PPO, "    def per_step(", "    def post_collect(self, env, policy, step_state, buffer, *, key):\n        return buffer\n\n    def per_step("), error_ok=True),
     M("C03-disc-nomask", "C03", "C03.3", (RB, "discounts = gamma * gae_lambda * next_non_terminals", "discounts = gamma * gae_lambda")),
     M("C03-boot-nomask", "C03", "C03.3", (RB, "gamma * next_values * next_non_terminals - self.values", "gamma * next_values - self.values")),
     M("C03-forward", "C03", "C03.1", (RB, "(deltas, discounts), reverse=True", "(deltas, discounts), reverse=False")),
